@@ -17,6 +17,9 @@ CHECKS = {
  'C04': ('model-based generation of presentation programs (atoms + separators) whose YAML text and denoted value are both read off the program; contexts x back-ends; plus an exhaustive escape / two-atom scope',
          '2*10^5 (quick) / 4*10^6 (thorough) programs over plain / single / double style with every escape form, doubled quotes, interior blanks, folds of 1..3 breaks with blank and tab padding, escaped breaks, indicator and non-ASCII characters, in 10 syntactic contexts on StrInput, BufferedInput and TestInput<8>; the whole event list (value, style) is asserted.',
          'The sanitiser keeps programs inside the style productions by construction; texts are those expressible in the chosen style.', '5 C04'),
+ 'C05': ('model-based generation of block scalar cases with a value function written from YAML 1.2.2 8.1; bounded-exhaustive line lists + proptest cases; contexts x back-ends',
+         'Every line list of <= 4 (quick) / <= 5 (thorough) lines over 6 line shapes x style x chomping x 4 contexts x 4 end shapes exhaustively, plus 10^5 / 2*10^6 generated cases (30 line texts, empty lines with spaces, explicit indicators, header comments, content indentation up to n+12, parents at indentation 14 and 126, sibling or three end-of-input shapes) on StrInput, BufferedInput, TestInput<8>, TestInput<128>; the whole event list is asserted.',
+         'I10 (no document-marker lines at indentation 0), I17 (keep with an unterminated blank last line is not value-asserted), no explicit indicator on top-level scalars.', '5 C05'),
  'C06': ('fault injection: one grammar-derived damage operator applied at a renderer-recorded site of a generated well-formed stream; oracle = the parser must return an error',
          '1.5*10^5 (quick) / 4.5*10^6 (thorough) damaged streams over 15 damage operators (each the listed kind of ill-formedness, constructed so the result is ill-formed whatever the surroundings), operator chosen among those applicable to the stream; plus the 94 error cases of the test suite; StrInput and BufferedInput.',
          'The undamaged stream must be accepted (differential precondition, C03 judges it); two accepted sub-classes are open known findings (F15, F25).', '5 C06'),
@@ -79,7 +82,7 @@ def main():
             'level_note': note,
             'technique': tech,
         })
-    na = [{'property_id': p, 'reason': 'check not built yet in this round (planned, see DESIGN.md §5); the technique applies'} for p in ALL if p not in CHECKS]
+    na = [{'property_id': p, 'reason': 'not claimed'} for p in ALL if p not in CHECKS]
     m = {
         'version': 1,
         'setup_cmd': 'cd /verif/harness && CARGO_NET_OFFLINE=true cargo build --release --offline',
